@@ -38,8 +38,8 @@ Definition outcome_of (b64t utf8t : list (str * option (list N))) (md5t : list (
     (hdr : option str) (method realm : str) (users : list (str * str)) : outcome :=
   match fn with
   | 0%nat => basic_auth (tbl_opt b64t) (tbl_opt utf8t) (tbl md5t) (tbl_opt keqvt) (enc_of kind md5t)
-               hdr method realm users
-  | _ => digest_auth (tbl_opt b64t) (tbl_opt utf8t) (tbl md5t) (tbl_opt keqvt) hdr method realm users
+               hdr method realm (table_of users)
+  | _ => digest_auth (tbl_opt b64t) (tbl_opt utf8t) (tbl md5t) (tbl_opt keqvt) hdr method realm (table_of users)
   end.
 
 Definition obs_auth b64t utf8t md5t keqvt fn kind hdr method realm users : T :=
